@@ -468,6 +468,9 @@ class AnnotationCollection(AbstractFeatureIntervalCollection):
         # edge case for a now null interval
         elif start == end:
             return None
+        # a parent without sequence cannot be subset; it carries no coordinates of its own either
+        elif not self.chunk_relative_location.parent.sequence:
+            return self._parent_or_seq_chunk_parent
         # edge case -- we are not actually subsetting at all
         if start == self.start and end == self.end:
             return self.chunk_relative_location.parent
